@@ -399,3 +399,139 @@ Fixpoint run_ops (v : variant) (h : heap) (ops : list op) : heap * list (option 
   | o :: r => let '(h1, s) := step v h o in
               let '(h2, ss) := run_ops v h1 r in (h2, s :: ss)
   end.
+
+(* ---------- the forwarder as a client session that may redial ---------- *)
+(* session.go Call/AsyncCall/Push/write/readDisconnected/cancelPendingCalls/redialForClient,
+   peer.go Dial (redialForClientLocked exists iff PeerConfig.RedialTimes != 0).
+   The canonical forwarder of examples/proxy_and_seq is such a session. *)
+Record client := mkClient {
+  cl_redial : bool;   (* PeerConfig.RedialTimes != 0: the session has a redial function *)
+  cl_link : bool }.   (* statusOk on a live connection when the operation starts *)
+
+(* where the backend connection is cut relative to one forwarded request *)
+Inductive cut :=
+| CNone      (* not at all *)
+| CBefore    (* before the request is written; the reader saw it (readDisconnected ran) *)
+| CAtWrite   (* write() saw statusOk, the connection was cut, then the bytes were written *)
+| CDuring    (* the backend read the request (handler entered); cut before the reply *)
+| CAfter.    (* the reply was received; cut afterwards *)
+
+Record fault := mkFault {
+  ft_cut : cut;
+  ft_reach : bool;    (* a dial of the backend address succeeds from the cut onwards *)
+  ft_stat : sref }.   (* the status object a refused write / a cancelled call carries *)
+
+(* peer.go redialForClientLocked through dialer.dialWithRetry *)
+Definition can_redial (cl : client) (ft : fault) : bool := cl_redial cl && ft_reach ft.
+
+(* the connection as write() finds it: statusOk or not *)
+Definition link_at_write (cl : client) (ft : fault) : bool :=
+  match ft_cut ft with CBefore => false | _ => cl_link cl end.
+
+(* session.go AsyncCall, label W: a refused write (statConnClosed, nothing was sent) is
+   repeated after redialForClient succeeded *)
+Definition writable (cl : client) (ft : fault) : bool := link_at_write cl ft || can_redial cl ft.
+
+(* the connection after the operation: a cut the reader sees is followed by a redial *)
+Definition link_after (cl : client) (ft : fault) : bool :=
+  match ft_cut ft with
+  | CNone => writable cl ft
+  | _ => can_redial cl ft
+  end.
+
+(* one AsyncCall + wait for its completion: result, what the backend handler saw, requests
+   that reached the backend *)
+Definition attempt_call (cl : client) (ft : fault) (be : peer) (proxy_addr : bytes)
+  (frq : request) : fwd_result * list hctx * nat :=
+  if negb (writable cl ft) then (FwdFail (ft_stat ft), [], 0)
+  else match ft_cut ft with
+       | CAtWrite =>
+           if link_at_write cl ft
+           then (FwdFail (ft_stat ft), [], 0)   (* written into the dead connection: lost, the
+                                                   pending call is cancelled by the reader *)
+           else let '(rp, seen) := serve_call be proxy_addr frq in (FwdReply rp, seen, 1)
+       | CDuring => let '(_, seen) := serve_call be proxy_addr frq in (FwdFail (ft_stat ft), seen, 1)
+       | _ => let '(rp, seen) := serve_call be proxy_addr frq in (FwdReply rp, seen, 1)
+       end.
+
+(* session.go Call.  [reissue] = false is the code as it is (one AsyncCall).  [reissue] = true
+   is the literal reading of the doc comment "automatically re-called once after a failure":
+   a call that completed with CodeConnClosed on a redial-enabled client session is issued
+   again (no further cut). *)
+Definition client_call (reissue : bool) (h : heap) (cl : client) (ft : fault) (be : peer)
+  (proxy_addr : bytes) : forwarder :=
+  fun frq =>
+    let '(res, seen, n) := attempt_call cl ft be proxy_addr frq in
+    match res with
+    | FwdFail r =>
+        if reissue && cl_redial cl && Z.eqb (st_code (deref h r)) 102 then
+          let cl2 := mkClient (cl_redial cl) (link_after cl ft) in
+          let ft2 := mkFault CNone (ft_reach ft) (SShared idx_conn_closed) in
+          let '(res2, seen2, n2) := attempt_call cl2 ft2 be proxy_addr frq in
+          (res2, seen ++ seen2, n + n2)
+        else (res, seen, n)
+    | FwdReply _ => (res, seen, n)
+    end.
+
+(* session.go Push: the same write path, no reply to wait for.  A push written into a
+   connection that was just cut is lost without anybody noticing. *)
+Definition client_push (cl : client) (ft : fault) (be : peer) (proxy_addr : bytes)
+  : push_forwarder :=
+  fun frq =>
+    if negb (writable cl ft) then (PushFail (ft_stat ft), [], 0)
+    else match ft_cut ft with
+         | CAtWrite => if link_at_write cl ft then (PushSent, [], 0)
+                       else (PushSent, serve_push be proxy_addr frq, 1)
+         | _ => (PushSent, serve_push be proxy_addr frq, 1)
+         end.
+
+(* what the second hop amounts to, in the terms of [failure] *)
+Definition fault_failure (cl : client) (ft : fault) : failure :=
+  if negb (writable cl ft) then FBefore (ft_stat ft)
+  else match ft_cut ft with
+       | CAtWrite => if link_at_write cl ft then FBefore (ft_stat ft) else FNone
+       | CDuring => FDuring (ft_stat ft)
+       | _ => FNone
+       end.
+
+Definition proxied_call_client (v : variant) (reissue : bool) (h : heap) (px fw be : peer)
+  (caller proxy_addr : bytes) (cl : client) (ft : fault) (rq : request) : proxied :=
+  proxy_serve_call v h px fw caller (client_call reissue h cl ft be proxy_addr) rq.
+
+Definition proxied_push_client (v : variant) (h : heap) (px fw be : peer)
+  (caller proxy_addr : bytes) (cl : client) (ft : fault) (rq : request) : proxied :=
+  proxy_serve_push v h px fw caller (client_push cl ft be proxy_addr) rq.
+
+(* histories over ONE forwarder session: every operation comes with its fault; the link
+   state and the heap are threaded *)
+Inductive cop :=
+| CopCall (px fw be : peer) (caller proxy_addr : bytes) (ft : fault) (rq : request)
+| CopPush (px fw be : peer) (caller proxy_addr : bytes) (ft : fault) (rq : request).
+
+Definition cstep (v : variant) (reissue : bool) (hc : heap * client) (o : cop)
+  : (heap * client) * proxied :=
+  let '(h, cl) := hc in
+  match o with
+  | CopCall px fw be c pa ft rq =>
+      let p := proxied_call_client v reissue h px fw be c pa cl ft rq in
+      let cl' := match px_forwards p with
+                 | [] => cl   (* the proxy served it itself: the forwarder was not used *)
+                 | _ => mkClient (cl_redial cl) (link_after cl ft)
+                 end in
+      ((px_heap p, cl'), p)
+  | CopPush px fw be c pa ft rq =>
+      let p := proxied_push_client v h px fw be c pa cl ft rq in
+      let cl' := match px_forwards p with
+                 | [] => cl
+                 | _ => mkClient (cl_redial cl) (link_after cl ft)
+                 end in
+      ((px_heap p, cl'), p)
+  end.
+
+Fixpoint run_cops (v : variant) (reissue : bool) (hc : heap * client) (ops : list cop)
+  : (heap * client) * list proxied :=
+  match ops with
+  | [] => (hc, [])
+  | o :: r => let '(hc1, p) := cstep v reissue hc o in
+              let '(hc2, ps) := run_cops v reissue hc1 r in (hc2, p :: ps)
+  end.
